@@ -182,6 +182,17 @@ let xml_case keep toks =
     | _ -> failwith "xml token") (split ',' toks) in
   hexe (XmlModel.xml_minify (keep = "1") ts)
 
+(* ---- Html ---- *)
+let htt_of_int = function 0 -> HtmlWs.HError | 1 -> HtmlWs.HComment | 2 -> HtmlWs.HDoctype | 3 -> HtmlWs.HStartTag | 4 -> HtmlWs.HEndTag
+  | 5 -> HtmlWs.HText | 6 -> HtmlWs.HSvg | 7 -> HtmlWs.HMath | 8 -> HtmlWs.HTemplate | 9 -> HtmlWs.HStartTagClose | _ -> HtmlWs.HOther
+let htmlws_toks toks = if toks = "" then [] else Stdlib.List.map (fun t -> match split ':' t with
+    | [a; d; x] -> { HtmlWs.tt = htt_of_int (int_of_string a); data = hexd d; text = hexd x; has_template = false }
+    | _ -> failwith "html token") (split ',' toks)
+let htmlws_case opts toks =
+  let ts = htmlws_toks toks in
+  let o = { HtmlWs.keepws = Stdlib.String.get opts 0 = '1'; keep_end_tags = Stdlib.String.get opts 1 = '1'; keep_doc_tags = Stdlib.String.get opts 2 = '1' } in
+  hexe (HtmlWs.html_minify o ts)
+
 
 (* ---- Js rename ---- *)
 let js_keywords : BinNums.coq_Z list list ref = ref []
@@ -256,6 +267,9 @@ let register (reg : string -> (string list -> string) -> unit) =
   reg "concat" (function [n; f; s; c] -> concat_case n f s c | _ -> "BADARGS");
   reg "http" (function [t; e; sc] -> http_case t e sc | [t; e] -> http_case t e "" | _ -> "BADARGS");
   reg "xml" (function [k; t] -> xml_case k t | [k] -> xml_case k "" | _ -> "BADARGS");
+  reg "htmlws" (function [o; t] -> htmlws_case o t | [o] -> htmlws_case o "" | _ -> "BADARGS");
+  reg "htmlwf" (function [_; t] -> if HtmlWsWf.wf_tokens_b (htmlws_toks t) then "1" else "0" | [_] -> "1" | _ -> "BADARGS");
+  reg "htmlattr" (function [v; q; m] -> hexe (HtmlAttr.html_escape_attr_val (hexd v) (z_of_int (int_of_string q)) (m = "1")) | _ -> "BADARGS");
   reg "xml_escattr" (function [v] -> hexe (XmlModel.escape_attr_val (hexd v)) | _ -> "BADARGS");
   reg "xml_esccdata" (function [v] -> let (e, u) = XmlModel.escape_cdata_val (hexd v) in (if u then "true " else "false ") ^ hexe e | _ -> "BADARGS");
   reg "ws_collapse" (function [v] -> hexe (Ws.collapse (hexd v)) | _ -> "BADARGS");
